@@ -476,9 +476,12 @@ class Background2D:
         bkg = self.bkg_estimator(data, axis=axis)
         bkgrms = self.bkgrms_estimator(data, axis=axis)
 
-        # mask boxes with too few unmasked pixels
+        # mask boxes with too few unmasked pixels, i.e., boxes with more
+        # than exclude_percentile percent of their pixels masked;
+        # completely masked boxes are always excluded
         ngood = np.count_nonzero(~np.isnan(data), axis=axis)
-        box_mask = ngood <= self._good_npixels_threshold
+        box_mask = np.logical_or(ngood < self._good_npixels_threshold,
+                                 ngood == 0)
 
         if np.ndim(bkg) == 0:
             if box_mask:  # single corner box
@@ -603,8 +606,8 @@ class Background2D:
                 ngood = np.hstack([ngood, col_ngood])
 
         if np.all(np.isnan(bkg)):
-            raise ValueError('All boxes contain <= '
-                             f'{self._good_npixels_threshold} good pixels. '
+            raise ValueError('All boxes contain too few good pixels (fewer '
+                             f'than {self._good_npixels_threshold} or none). '
                              'Please check your data or increase '
                              '"exclude_percentile" to allow more boxes to '
                              'be included.')
